@@ -579,6 +579,44 @@ pub fn run_op(op: &str, a: &[String]) -> Result<(), String> {
                     }
                 }
             }
+            // several threads using the library AT THE SAME TIME, each walking the calls in its own order (the schedule is
+            // whatever the OS gives: exploration, not a proof): every answer equals the fresh-thread answer
+            {
+                let shared = std::sync::Arc::new((calls.clone(), alone.clone()));
+                let mut hs = vec![];
+                for t in 0..6usize {
+                    let sh = shared.clone();
+                    let mut ord: Vec<usize> = (0..calls.len()).collect();
+                    if t % 2 == 1 {
+                        ord.reverse();
+                    }
+                    if t >= 2 {
+                        let mut r2 = Rng::new(seed ^ (0x9E37 * (t as u64 + 1)));
+                        shuffle(&mut ord, &mut r2);
+                    }
+                    hs.push(std::thread::spawn(move || -> Option<(usize, String)> {
+                        for i in ord {
+                            let g = run(&sh.0[i]);
+                            if g != sh.1[i] {
+                                return Some((i, g));
+                            }
+                        }
+                        None
+                    }));
+                }
+                for (t, h) in hs.into_iter().enumerate() {
+                    match h.join() {
+                        Err(_) => return Err(format!("panic in thread {} while {} threads use the library concurrently", t, 6)),
+                        Ok(Some((i, g))) => {
+                            return Err(format!(
+                                "call #{} gives a different answer while 6 threads use the library concurrently (thread {}) than as the first call of a fresh thread: {} vs {}",
+                                i, t, &g[..g.len().min(60)], &alone[i][..alone[i].len().min(60)]
+                            ))
+                        }
+                        Ok(None) => {}
+                    }
+                }
+            }
             // fresh threads again, after the threads above have run (process-wide state)
             for (i, c) in calls.iter().enumerate() {
                 let c = c.clone();
